@@ -260,6 +260,7 @@ def run_params(case):
                 if port == 2 and ch in (1, 2, 3) and not (ch == 3 and d[0] == 1):
                     merged.append((tt, 0, 'rx', ch, d))
         waiting = None
+        spare = []
         ptr = 0
         for tt, _, kind, ch, d in merged:
             if kind == 'tx':
@@ -273,12 +274,21 @@ def run_params(case):
                     break
                 ptr += 1
                 if waiting is not None:
+                    # a reply taken from the link at this very instant may be handled by the dispatcher after the updater's next
+                    # step (two threads, one virtual instant): an unused matching delivery of the same instant counts as the answer
+                    credit = [x for x in spare if abs(x[0] - tt) < 1e-9 and x[1] == waiting[0]]
+                    if credit:
+                        spare.remove(credit[0])
+                        waiting = None
+                if waiting is not None:
                     out.fail('param:not-one-at-a-time', '%s: request %s sent at %.4f while %s (sent %.4f) was not answered yet; order %r' % (
-                        desc, bytes(d).hex(), tt, waiting[1][1].hex(), waiting[2], [(round(a_, 3), k_, c_, bytes(d_).hex()) for a_, _x, k_, c_, d_ in merged][:14]))
+                        desc, bytes(d).hex(), tt, waiting[1][1].hex(), waiting[2], [(round(a_, 3), k_, c_, bytes(d_).hex()) for a_, _x, k_, c_, d_ in merged if a_ >= waiting[2] - 0.45][:16]))
                     break
                 waiting = (_pat(ch, d), this, tt)
             elif waiting is not None and _pat(ch, d) == waiting[0]:
                 waiting = None
+            else:
+                spare.append((tt, _pat(ch, d)))
         for k in range(1, len(tx_times) if not resending else 0):
             if k - 1 >= len(rx):
                 out.fail('param:not-one-at-a-time', '%s: request %d sent at %.4f but only %d replies were ever delivered' % (desc, k, tx_times[k], len(rx)))
